@@ -241,6 +241,65 @@ func c20Decorate(r *rand.Rand, text string) string {
 	return sb.String()
 }
 
+// c20TokenizeReported splits a decorated text into the parser's tokens and, per token (plus one list for
+// end-of-input), the reported skipped tokens in front of it: `#digits#` comments and `%` invalid tokens.
+func c20TokenizeReported(gp *GenParser, text string) (toks, ign string, ok bool) {
+	typeID := func(name string) int {
+		for i, t := range gp.G.Parser.Types.RangeTypes {
+			if t.Name == name {
+				return i + 1
+			}
+		}
+		return -1
+	}
+	comment, invalid := typeID("Comment"), typeID("InvalidToken")
+	if comment < 0 || invalid < 0 {
+		return "", "", false
+	}
+	var tparts, iparts, cur []string
+	flush := func() {
+		if len(cur) == 0 {
+			iparts = append(iparts, "-")
+		} else {
+			iparts = append(iparts, strings.Join(cur, ","))
+		}
+		cur = nil
+	}
+	for i := 0; i < len(text); {
+		switch ch := text[i]; {
+		case ch == ' ':
+			i++
+		case ch == '#':
+			j := i + 1
+			for j < len(text) && text[j] >= '0' && text[j] <= '9' {
+				j++
+			}
+			if j >= len(text) || text[j] != '#' {
+				return "", "", false
+			}
+			cur = append(cur, fmt.Sprintf("%d:%d:%d", comment, i, j+1))
+			i = j + 1
+		case ch == '%':
+			cur = append(cur, fmt.Sprintf("%d:%d:%d", invalid, i, i+1))
+			i++
+		default:
+			id := gp.TermID("'" + string(ch) + "'")
+			if id < 0 {
+				return "", "", false
+			}
+			flush()
+			tparts = append(tparts, fmt.Sprintf("%d:%d:%d", id, i, i+1))
+			i++
+		}
+	}
+	flush()
+	toks = "-"
+	if len(tparts) > 0 {
+		toks = strings.Join(tparts, ",")
+	}
+	return toks, strings.Join(iparts, "|"), true
+}
+
 // c20GeneratedReported: generated parsers that REPORT skipped tokens (comment and invalid_token
 // injected into the stream) and trim trailing whitespace; every text is parsed by a fresh Parser and
 // by a Parser that has parsed a (mostly broken) other text before.
@@ -332,6 +391,24 @@ func c20GeneratedReported(c *Ctx) {
 			}
 			if fresh != reused {
 				c.Violate(fmt.Sprintf("state leaks between parses: a generated Parser that parsed %q before reports %q, a fresh Parser reports %q", reqs[i+1].Prev, reused, fresh), desc)
+			}
+			// replay by the layered Lean model (pending / flush), for the fresh and for the reused Parser
+			// (the model starts every parse with empty pending tokens, as parse() does)
+			if toks, ign, ok := c20TokenizeReported(gp, text); ok {
+				t := gp.G.Parser.Tables
+				args := fmt.Sprintf("%s %s %s 0 %s %s %d", tablesStr(t, gp.G.Parser.NumTerminals), b2s(t.Optimized != nil), xinfoStr(gp), toks, ign, len(text))
+				key := ""
+				if strings.Contains(ign, ":") {
+					key = gp.TM + "\x00" + text
+				}
+				c.Debugf("reported-token run %q (prev %q) of %s", text, reqs[i+1].Prev, gp.TM)
+				c.Case("prun "+args, fresh, key)
+				c.Case("prun "+args, reused, "")
+				if i%6 == 0 {
+					c.Case("phyp "+args, "ok", "")
+				}
+			} else {
+				c.Count("generated reported: text not tokenized by the harness")
 			}
 		}
 	}
